@@ -908,19 +908,19 @@ def S(names, ops):
 
 PROPS = {
     "C01": Prop("C01",
-                [("sweep", "li,loc,lican,loccan,ext,hist"), ("specials", "lang,script,region,variant,li,loc"), ("abb", "max,min,limax,limin,dir")] + S(["tokens"], "li,loc,ext") + S(["wf", "near", "raw"], "li,loc,ext,lican,loccan,listr,locstr,conv,idem,liparts,locparts")
+                [("aftermath", "li,loc,lican,loccan,listr,locstr")] + [("sweep", "li,loc,lican,loccan,ext,hist"), ("specials", "lang,script,region,variant,li,loc"), ("abb", "max,min,limax,limin,dir")] + S(["tokens"], "li,loc,ext") + S(["wf", "near", "raw"], "li,loc,ext,lican,loccan,listr,locstr,conv,idem,liparts,locparts")
                 + S(["subtag"], "lang,script,region,variant") + [("hist", None), ("parts", None), ("match", None)]
                 + S(["triples"], "max,min,dir,limax,limin") + [("glue_li", None), ("glue_misc", None), ("serde", None)],
                 None, proj_outcome, orc_c01, design_ref="4/C01"),
-    "C02": Prop("C02", [("sweep", "li,lican,listr"), ("specials", "li,lican,listr")] + S(["tokens", "wf", "near", "raw"], "li,lican,listr") + [("glue_li", None)],
+    "C02": Prop("C02", [("aftermath", "li,lican,listr")] + [("sweep", "li,lican,listr"), ("specials", "li,lican,listr")] + S(["tokens", "wf", "near", "raw"], "li,lican,listr") + [("glue_li", None)],
                 {"li", "lican", "listr", "liiter", "liiterp"}, proj_c02, orc_c02,
                 design_ref="4/C02"),
-    "C03": Prop("C03", [("sweep", "loc,locstr,ext"), ("specials", "loc,locstr")] + S(["tokens", "wf", "near", "raw"], "loc,locstr,ext,substr ext") + [("glue_misc", None)],
+    "C03": Prop("C03", [("aftermath", "loc,locstr")] + [("sweep", "loc,locstr,ext"), ("specials", "loc,locstr")] + S(["tokens", "wf", "near", "raw"], "loc,locstr,ext,substr ext") + [("glue_misc", None)],
                 {"loc", "locstr", "ext", "exttype", "substr"}, proj_c03, orc_c03,
                 design_ref="4/C03"),
-    "C04": Prop("C04", [("sweep", "li,lican,loc,loccan,hist"), ("specials", "li,loc")] + S(["wf", "near"], "li,lican,loc,loccan") + S(["tokens"], "loc,loccan") + [("hist", None), ("parts", None)],
+    "C04": Prop("C04", [("cldrhist", None)] + [("sweep", "li,lican,loc,loccan,hist"), ("specials", "li,loc")] + S(["wf", "near"], "li,lican,loc,loccan") + S(["tokens"], "loc,loccan") + [("hist", None), ("parts", None)],
                 {"li", "lican", "loc", "loccan", "hist", "fromparts"}, proj_str_only, orc_c04, design_ref="4/C04"),
-    "C05": Prop("C05", [("sweep", "li,loc,idem,ext,hist"), ("specials", "lang,script,region,variant,li,loc")] + S(["wf", "near"], "li,loc,ext,idem") + S(["tokens"], "loc,ext") + S(["subtag"], "lang,script,region,variant")
+    "C05": Prop("C05", [("cldrhist", None)] + [("sweep", "li,loc,idem,ext,hist"), ("specials", "lang,script,region,variant,li,loc")] + S(["wf", "near"], "li,loc,ext,idem") + S(["tokens"], "loc,ext") + S(["subtag"], "lang,script,region,variant")
                 + [("hist", None)],
                 {"li", "loc", "ext", "idem", "hist", "lang", "script", "region", "variant"}, proj_rt, orc_c05, design_ref="4/C05"),
     "C06": Prop("C06", [("abb", "max,limax")] + S(["triples"], "max,limax"), {"max", "limax"}, proj_full, orc_spec_equal, design_ref="4/C06"),
@@ -929,20 +929,20 @@ PROPS = {
     "C08": Prop("C08", [("abb", "min,limin,liminmax,locmin")] + S(["triples"], "min,limin,liminmax,locmin"), {"min", "limin", "liminmax", "locmin"}, proj_full, orc_c08,
                 design_ref="4/C08"),
     "C09": Prop("C09", [("sweep", "pair")] + [("pairs", None)], {"pair", "extpair", "lipair"}, proj_pair, orc_c09, design_ref="4/C09"),
-    "C10": Prop("C10", [("sweep", "hist")] + [("hist", None)], {"hist"}, proj_c10, orc_c10, design_ref="4/C10"),
+    "C10": Prop("C10", [("cldrhist", None)] + [("sweep", "hist")] + [("hist", None)], {"hist"}, proj_c10, orc_c10, design_ref="4/C10"),
     "C11": Prop("C11", [("match", None), ("macvals", None)], {"match", "locmatch", "langmatch", "matchx", "locmatchx", "matchr", "macrel"},
                 proj_full, orc_c11, design_ref="4/C11"),
     "C12": Prop("C12", [("sweep", "eqstr,rel"), ("specials", "eqstr,rel")] + [("rel", None), ("glue_misc", None), ("macvals", None)], {"rel", "eqstr", "subeq", "route", "macrel"}, proj_full, orc_c12,
                 design_ref="4/C12"),
-    "C13": Prop("C13", [("sweep", "conv"), ("specials", "conv")] + S(["tokens"], "conv") + S(["wf", "near", "raw"], "conv,convx") + [("macvals", None)], {"conv", "convx", "macrel"}, proj_c13, orc_c13,
+    "C13": Prop("C13", [("aftermath", "conv")] + [("sweep", "conv"), ("specials", "conv")] + S(["tokens"], "conv") + S(["wf", "near", "raw"], "conv,convx") + [("macvals", None)], {"conv", "convx", "macrel"}, proj_c13, orc_c13,
                 design_ref="4/C13"),
     "C14": Prop("C14", [("abb", "dir")] + [("layoutnames", None)] + S(["triples"], "dir,dirv"), {"dir", "locdir", "dirv"}, proj_full, orc_c14, design_ref="4/C14",
                 configs=[("likely", ALL_FEATURES), ("nolikely", ("macros", "serde"))]),
     "C16": Prop("C16", [("macros", None)], {"mac"}, proj_c16, orc_c16, design_ref="4/C16"),
     "C18": Prop("C18", [("layoutnames", None), ("tablemisc", None)] + S(["triples"], "max,dir"), {"max", "dir", "cldrversion"}, proj_full, orc_c18,
                 design_ref="4/C18"),
-    "C19": Prop("C19", [("sweep", "serto,serfrom")] + [("serde", None), ("hist", None)], {"serto", "serfrom", "hist", "sernhr"}, proj_c19, orc_c19, design_ref="4/C19"),
-    "C20": Prop("C20", [("sweep", "li,loc,listr,locstr,lican,loccan,eqstr,hist,pair"), ("specials", "lang,li,loc,eqstr")] + S(["tokens"], "loc") + S(["wf", "near"], "li,listr,loc,locstr,lican,loccan,conv,liparts,locparts") + S(["subtag"], "lang,script,region,variant")
+    "C19": Prop("C19", [("aftermath", "serfrom")] + [("sweep", "serto,serfrom")] + [("serde", None), ("hist", None)], {"serto", "serfrom", "hist", "sernhr"}, proj_c19, orc_c19, design_ref="4/C19"),
+    "C20": Prop("C20", [("aftermath", "li,loc,lican,loccan,listr,locstr")] + [("sweep", "li,loc,listr,locstr,lican,loccan,eqstr,hist,pair"), ("specials", "lang,li,loc,eqstr")] + S(["tokens"], "loc") + S(["wf", "near"], "li,listr,loc,locstr,lican,loccan,conv,liparts,locparts") + S(["subtag"], "lang,script,region,variant")
                 + [("hist", None), ("match", None), ("rel", None), ("parts", None), ("pairs", None), ("layoutnames", None)],
                 None, proj_c20, orc_c20, design_ref="4/C20",
                 gen_env={"GEN_LIKELY": "0"},     # histories without maximize/minimize: those calls exist only with the feature
@@ -955,7 +955,7 @@ PROPS = {
                 + [("langmisc", None), ("glue_misc", None)],
                 {"lang", "script", "region", "variant", "langstr", "langopt", "langdefault", "rawref", "subeq", "substr"}, proj_c15, orc_c15,
                 design_ref="4/C15"),
-    "C17": Prop("C17", [("sweep", "liparts,locparts,hist")] + [("parts", None), ("glue_misc", None), ("hist", None)], {"liparts", "locparts", "fromparts", "raw", "rawref", "hist"}, proj_c17, orc_c17,
+    "C17": Prop("C17", [("cldrhist", None)] + [("sweep", "liparts,locparts,hist")] + [("parts", None), ("glue_misc", None), ("hist", None)], {"liparts", "locparts", "fromparts", "raw", "rawref", "hist"}, proj_c17, orc_c17,
                 design_ref="4/C17"),
 }
 
@@ -1211,6 +1211,49 @@ def extra_stream(name, tier, seed, ops=None):
                 elif op == "match":
                     for g in ("und", "undef", f.lower()):
                         lines.append("match %s %s" % (hx(f + "-Latn-PL"), hx(g + "-Latn-PL")))
+        return lines
+    if name == "aftermath":
+        # a well-formed text X, then IMMEDIATELY X with bytes appended / prepended / cut (NUL padding, white space, a separator, a
+        # high byte, one more letter): an answer remembered for X (a memo whose key drops the length, trims, or compares a prefix)
+        # must not be given for its neighbour.  Every neighbour is asked right after its own X.
+        oplist = (ops or "li,loc").split(",")
+        ids = sweep_identifiers()
+        base = [t for t in ids if len(t) <= 30][::5] + ["en-US", "pl_latn_pl", "und", "sr-Cyrl-RS-u-ca-buddhist", "en-t-es-AR-h0-hybrid-x-priv", "de-CH-1996"]
+        tails = [b"\x00", b"\x00\x00\x00", b" ", b"\n", b"-", b"_", b"\xff", b"a", b"-a", b"\x00x"]
+        lines = []
+        if "serfrom" in oplist:
+            # the same through JSON strings (`\u0000` for NUL)
+            oplist = [o for o in oplist if o != "serfrom"]
+            for t in base:
+                for tl in (b"\x00", b"\x00\x00\x00", b" ", b"\n", b"-", b"a"):
+                    lines.append("serfrom %s" % R.hexs(json.dumps(t).encode()))
+                    lines.append("serfrom %s" % R.hexs(json.dumps(t + tl.decode()).encode()))
+                lines.append("serfrom %s" % R.hexs(json.dumps(t).encode()))
+                lines.append("serfrom %s" % R.hexs(json.dumps(t[:-1]).encode()))
+        for op in oplist:
+            for t in base:
+                tb = t.encode()
+                for tl in tails:
+                    lines.append("%s %s" % (op, R.hexs(tb)))
+                    lines.append("%s %s" % (op, R.hexs(tb + tl)))
+                for hd in (b"\x00", b" ", b"-"):
+                    lines.append("%s %s" % (op, R.hexs(tb)))
+                    lines.append("%s %s" % (op, R.hexs(hd + tb)))
+                lines.append("%s %s" % (op, R.hexs(tb)))
+                lines.append("%s %s" % (op, R.hexs(tb[:-1])))
+                lines.append("%s %s" % (op, R.hexs(tb)))
+                lines.append("%s %s" % (op, R.hexs(tb.upper() + b"\x00")))
+        return lines
+    if name == "cldrhist":
+        # every key of the bundled likelySubtags.json as a start value, then maximize / minimize: what the tables put INTO an
+        # identifier must print canonically, re-parse to an equal value and survive the parts round trip like anything else
+        d = json.load(open(os.path.join(R.REPO, "unic-langid-impl", "data", "likelySubtags.json")))["supplemental"]["likelySubtags"]
+        lines = []
+        for k in d:
+            lines.append("hist %s mx" % hx(k))
+            lines.append("hist %s mn" % hx(k))
+        for k in list(d)[::7]:
+            lines.append("hist %s mx mn mx" % hx(k + "-u-ca-buddhist"))
         return lines
     if name == "abb":
         # a question about a language the tables know (A), then the SAME question about a language they do not know, twice (B, B):
